@@ -106,6 +106,28 @@ fn clone_emode_ix(group: Pubkey, signer: Pubkey, from: Pubkey, to: Pubkey) -> In
 }
 
 pub fn run(rng: &mut Rng, n: usize, rep: &mut Report) {
+    run_with(rng, n, rep, &mut None)
+}
+
+/// family `cfgix`: one line per REAL lending_pool_configure_bank executed by this monitor (unfrozen and frozen banks,
+/// with whatever e-mode entries the bank holds at that moment): `adm.ixcfg <cfg> flags maxInit maxMaint <opt> <entries>`
+pub fn gen(rng: &mut Rng, n: usize, out: &mut Vec<String>) {
+    let mut guard = 0;
+    while out.len() < n && guard < 400 {
+        guard += 1;
+        let mut scratch = Report::default();
+        let mut part: Option<Vec<String>> = Some(vec![]);
+        run_with(rng, 60, &mut scratch, &mut part);
+        out.extend(part.unwrap());
+    }
+    out.truncate(n);
+}
+
+fn entries_line(b: &Bank) -> String {
+    b.emode.emode_config.entries.iter().map(|e| format!("{} {} {} {}", e.collateral_bank_emode_tag, e.flags, w(e.asset_weight_init), w(e.asset_weight_maint))).collect::<Vec<_>>().join(" ")
+}
+
+pub fn run_with(rng: &mut Rng, n: usize, rep: &mut Report, lines: &mut Option<Vec<String>>) {
     let mut cells = 0;
     // add-pool validation: the initial configuration of a NEW bank is only checked by BankConfig::validate
     {
@@ -123,9 +145,30 @@ pub fn run(rng: &mut Rng, n: usize, rep: &mut Report) {
         let h1 = s.banks[1];
         for _ in 0..25 {
             // full configure with random (mostly valid, sometimes boundary) options
+            // sometimes the bank is frozen for this round (state edit; lifted again below)
+            if rng.chance(1, 6) {
+                let mut b = s.w.bank(&h0.bank);
+                b.flags |= marginfi_type_crate::constants::FREEZE_SETTINGS;
+                s.w.set_bank(&h0.bank, &b);
+            }
             let pre = s.w.bank(&h0.bank);
             let og = gen_opt(rng, &Cfg::from_bank(&pre));
             let r = s.w.exec(&ix::configure_bank(&h0, s.admin, og.opt.clone()));
+            if let Some(v) = lines.as_mut() {
+                let g = s.w.group(&s.group);
+                let head = format!("adm.ixcfg {} {} {} {} {} {}", Cfg::from_bank(&pre).line(), pre.flags, g.emode_max_init_leverage, g.emode_max_maint_leverage, og.line, entries_line(&pre));
+                match &r {
+                    Ok(()) => {
+                        let post = s.w.bank(&h0.bank);
+                        v.push(format!("{} => ok {} {}", head, Cfg::from_bank(&post).line(), post.flags));
+                    }
+                    Err(e) => {
+                        if let Some(c) = e.code() {
+                            v.push(format!("{} => err {}", head, c));
+                        }
+                    }
+                }
+            }
             cells += 1;
             rep.bump("cases");
             if r.is_ok() {
@@ -214,6 +257,47 @@ pub fn run(rng: &mut Rng, n: usize, rep: &mut Report) {
             if r.is_ok() {
                 if let Some(why) = incoherent_with_caps(&w2.bank(&h0.bank), &w2.group(&s.group)) {
                     rep.fail(format!("configure_bank lowered the liability weights under a stored e-mode entry: {} (entry {} / {}, new liability weights {} / {})", why, wi, wm, li, lm));
+                }
+            }
+        }
+        // ---- directed: FRACTIONAL group leverage caps (set through the real marginfi_group_configure) and an e-mode entry
+        //      whose implied leverage lies within half a unit on either side of the cap
+        for _ in 0..4 {
+            let mut w2 = s.w.clone();
+            let g0 = w2.group(&s.group);
+            let ci = 2.0 + rng.below(30) as f64 + *rng.pick(&[0.25f64, 0.5, 0.75, 0.9, 0.51, 0.0]);
+            let cm = ci + 1.0 + rng.below(20) as f64 + *rng.pick(&[0.25f64, 0.5, 0.75, 0.6, 0.0]);
+            if cm > 100.0 {
+                continue;
+            }
+            let okg = w2.exec(&ix::group_configure(
+                s.group, g0.admin, g0.admin, g0.emode_admin, g0.delegate_curve_admin, g0.delegate_limit_admin, g0.delegate_emissions_admin,
+                g0.metadata_admin, g0.risk_admin, Some(I80F48::from_num(ci).into()), Some(I80F48::from_num(cm).into()),
+            )).is_ok();
+            if !okg {
+                rep.bump("frac_cap_group_refused");
+                continue;
+            }
+            // liability weights 1.2 / 1.1 on bank 0 (roomy), then an entry at leverage cap + delta on the init side
+            let _ = w2.exec(&ix::configure_bank(&h0, s.admin, marginfi_type_crate::types::BankConfigOpt {
+                liability_weight_init: Some(I80F48::from_num(1.2).into()),
+                liability_weight_maint: Some(I80F48::from_num(1.1).into()),
+                ..Default::default()
+            }));
+            let delta = *rng.pick(&[-0.4f64, -0.1, 0.05, 0.2, 0.45, 0.3]);
+            let lev = (ci + delta).max(1.01);
+            let wi = 1.2 * (1.0 - 1.0 / lev);
+            let wm_cap = 1.1 * (1.0 - 1.0 / (cm - 0.6).max(1.01));
+            let wm = wi.max(wm_cap.min(1.09)).min(1.09);
+            let mut entries = [EmodeEntry { collateral_bank_emode_tag: 0, flags: 0, pad0: [0; 5], asset_weight_init: I80F48::ZERO.into(), asset_weight_maint: I80F48::ZERO.into() }; 10];
+            entries[0] = EmodeEntry { collateral_bank_emode_tag: 4, flags: 0, pad0: [0; 5], asset_weight_init: I80F48::from_num(wi).into(), asset_weight_maint: I80F48::from_num(wm).into() };
+            let r = w2.exec(&emode_ix(s.group, s.admin, h0.bank, 2, entries));
+            cells += 1;
+            rep.bump("cases");
+            rep.bump(if r.is_ok() { "frac_cap_entry_ok" } else { "frac_cap_entry_refused" });
+            if r.is_ok() {
+                if let Some(why) = incoherent_with_caps(&w2.bank(&h0.bank), &w2.group(&s.group)) {
+                    rep.fail(format!("configure_bank_emode accepted an entry beyond a fractional group cap: {} (caps {} / {}, entry leverage {:.3})", why, ci, cm, lev));
                 }
             }
         }
